@@ -39,6 +39,7 @@ def dispatch (model : String) (c : Case) : String :=
 
 def main (args : List String) : IO UInt32 := do
   let model := args.headD ""
+  if model == "cfg-keys" then IO.println CfgDrv.cfgKeys; return 0
   let stdin ← IO.getStdin
   let cases ← readCases stdin #[] none
   for c in cases do
